@@ -14,12 +14,13 @@
 //   overwrite keeps the latest, write_once the first value until clear(), both give it to try_get and to a successor attached later;
 //   limiter: a put is accepted iff count < threshold and some successor accepts it; count' = count + 1; decrement d: count' = min(threshold, max(0, count - d)).
 // usage: c15_fgmodel_rc <max_success> [<property id for the replay file name>]   (env VERIF_LEG_SEED, VERIF_REPLAY_DIR)   |   c15_fgmodel_rc replay <file>
-// case (one line):  fg nut=<bc|fn|as|ow|wo|q|pq|seq|lim> T=<threshold> copy=<0|1 node copy-constructed from a prototype> sinks=<regpred:budget:attached,...> ops=<P5,B0:2,U1,D-2,C,G,V,L,M,E2,R,...>
+// case (one line):  fg nut=<bc|fn|as|ow|wo|q|pq|seq|lim|jk> T=<threshold> copy=<0|1 node copy-constructed from a prototype> sinks=<regpred:budget:attached,...> ops=<P5,B0:2,U1,D-2,C,G,V,L,M,E2,R,...>
 #include <rapidcheck.h>
 #include "oneapi/tbb/flow_graph.h"
 #include "oneapi/tbb/global_control.h"
 #include <cstdio>
 #include <set>
+#include <map>
 #include <deque>
 #include <string>
 #include <vector>
@@ -52,7 +53,7 @@ struct Sink : receiver<int> {
 struct MSink { bool regpred = false; int budget = -1; bool attached = false, haspred = false; std::vector<int> log; };
 struct Model {
     std::string kind; int T = 1; std::vector<MSink> s; std::vector<int> push;
-    std::deque<int> items; std::multiset<int> bag; std::set<int> present; int head = 0; bool valid = false; int val = 0; int count = 0; bool reserved = false; int rsv = 0;
+    std::deque<int> items; std::multiset<int> bag; std::set<int> present; int head = 0; bool valid = false; int val = 0; int count = 0; bool reserved = false; int rsv = 0; std::map<int, int> port[2];
     bool accepts(int k, int v) { MSink& m = s[(size_t)k]; if (m.budget == 0) return false; if (m.budget > 0) m.budget--; m.log.push_back(v); return true; }
     bool offer_all(int v) { bool any = false; for (size_t i = 0; i < push.size();) { int k = push[i]; if (accepts(k, v)) { any = true; i++; } else if (s[(size_t)k].regpred) { push.erase(push.begin() + (long)i); s[(size_t)k].haspred = true; } else i++; } return any; }
     bool offer_one(int v) { for (size_t i = 0; i < push.size();) { int k = push[i]; if (accepts(k, v)) return true; if (s[(size_t)k].regpred) { push.erase(push.begin() + (long)i); s[(size_t)k].haspred = true; } else i++; } return false; }
@@ -65,6 +66,7 @@ struct Model {
     }
     bool put(int v) {
         if (kind == "bc" || kind == "fn" || kind == "as") { offer_all(v); return true; }
+        if (kind == "jk") return jput(0, v);
         if (kind == "ow") { valid = true; val = v; offer_all(v); return true; }
         if (kind == "wo") { if (valid) return false; valid = true; val = v; offer_all(v); return true; }
         if (kind == "q") { items.push_back(v); forward(); return true; }
@@ -95,6 +97,10 @@ struct Model {
         if ((kind == "ow" || kind == "wo") && valid) { if (accepts(k, val)) push.push_back(k); else s[(size_t)k].haspred = true; return; }     // a rejecting late successor must take the edge over (precondition, see run_case)
         push.push_back(k); if (buffering()) forward();
     }
+    // key_matching join of two ports (key = value & 7): a tuple leaves as soon as both ports hold a message with the same key
+    bool jput(int p, int v) { int k = v & 7; port[p][k] = v; if (port[0].count(k) && port[1].count(k)) { int a = port[0][k], b = port[1][k]; port[0].erase(k); port[1].erase(k); offer_all(a * 100 + b); } return true; }
+    // graph::reset(): buffered items, stored values, counts and partial tuples are dropped; edges stay as they are
+    void reset_all() { items.clear(); bag.clear(); present.clear(); head = 0; valid = false; count = 0; reserved = false; port[0].clear(); port[1].clear(); }
     void decrement(int d) { long c = (long)count - d; if (c < 0) c = 0; if (c > T) c = T; count = (int)c; }
 };
 
@@ -107,6 +113,7 @@ static bool run_case(const std::string& line) {
     std::unique_ptr<broadcast_node<int>> bc; std::unique_ptr<function_node<int, int>> fn; std::unique_ptr<overwrite_node<int>> ow; std::unique_ptr<write_once_node<int>> wo;
     std::unique_ptr<queue_node<int>> q; std::unique_ptr<priority_queue_node<int>> pq; std::unique_ptr<sequencer_node<int>> seq; std::unique_ptr<limiter_node<int, int>> lim;
     typedef async_node<int, int> AN; std::unique_ptr<AN> as;
+    typedef join_node<std::tuple<int, int>, key_matching<int>> JK; std::unique_ptr<JK> jk; std::unique_ptr<function_node<std::tuple<int, int>, int>> jconv; receiver<int>* in1 = nullptr;
     receiver<int>* in = nullptr; sender<int>* out = nullptr; bool copy = atoi(kv(line, "copy").c_str()) != 0;
     // copy=1: the node under test is copy-constructed from a prototype that stays in the graph without edges (a copy has the prototype's body / threshold, no edges, no items)
     auto mk = [&](auto& holder, auto* proto) { typedef typename std::remove_pointer<decltype(proto)>::type NT; if (copy) { holder.reset(new NT(*proto)); return proto; } holder.reset(proto); return (NT*)nullptr; };
@@ -120,6 +127,10 @@ static bool run_case(const std::string& line) {
     else if (m.kind == "pq") { auto* p = mk(pq, new priority_queue_node<int>(g)); proto_keep.reset(p); in = pq.get(); out = pq.get(); }
     else if (m.kind == "seq") { auto* p = mk(seq, new sequencer_node<int>(g, [](const int& v) -> size_t { return (size_t)v; })); proto_keep.reset(p); in = seq.get(); out = seq.get(); }
     else if (m.kind == "lim") { auto* p = mk(lim, new limiter_node<int, int>(g, (size_t)m.T)); proto_keep.reset(p); in = lim.get(); out = lim.get(); }
+    else if (m.kind == "jk") {
+        jk.reset(new JK(g, [](int v) { return v & 7; }, [](int v) { return v & 7; }));
+        jconv.reset(new function_node<std::tuple<int, int>, int>(g, unlimited, [](const std::tuple<int, int>& t) { return std::get<0>(t) * 100 + std::get<1>(t); }));
+        make_edge(*jk, *jconv); in = &input_port<0>(*jk); in1 = &input_port<1>(*jk); out = jconv.get(); }
     else return true;
     std::vector<std::unique_ptr<Sink>> S;
     for (auto& sp : split(kv(line, "sinks"), ',')) {
@@ -130,7 +141,7 @@ static bool run_case(const std::string& line) {
     if (S.empty()) return true;
     for (size_t k = 0; k < S.size(); k++) if (m.s[k].attached) { make_edge(*out, *S[k]); m.attach((int)k); }
     g.wait_for_all();
-    int n_rej = 0, n_pull = 0, n_keep = 0, n_resv = 0;
+    int n_rej = 0, n_pull = 0, n_keep = 0, n_resv = 0, n_resets = 0;
     auto compare = [&](const std::string& after) -> bool {
         for (size_t k = 0; k < S.size(); k++) {
             if (S[k]->log != m.s[k].log) {
@@ -143,10 +154,18 @@ static bool run_case(const std::string& line) {
     for (auto& op : split(kv(line, "ops"), ',')) {
         char c = op[0]; int a = op.size() > 1 ? atoi(op.c_str() + 1) : 0;
         if (c == 'P') {
+            if (jk && m.port[0].count(a & 7)) continue;
             bool r = in->try_put(a); g.wait_for_all(); size_t before = 0; for (auto& x : m.s) before += x.log.size();
             bool e = m.put(a); size_t after = 0; for (auto& x : m.s) after += x.log.size();
             if (r != e) return fail("try_put(" + num(a) + ") to the " + m.kind + " node returned " + (r ? "true" : "false") + ", the contract gives " + (e ? "true" : "false"));
             if (!e || after == before) n_rej++;
+        } else if (c == 'Q') {
+            if (!jk) continue;
+            if (m.port[1].count(a & 7)) continue;      // a second message with a key that is still waiting in the same port is outside the contract
+            bool r = in1->try_put(a); g.wait_for_all(); bool e = m.jput(1, a);
+            if (r != e) return fail("try_put(" + num(a) + ") to port 1 of the key_matching join returned " + (r ? "true" : "false"));
+        } else if (c == 'Z') {
+            g.reset(); m.reset_all(); n_resets++;
         } else if (c == 'B') {
             size_t p = op.find(':'); if (p == std::string::npos || (size_t)a >= S.size()) continue; int b = atoi(op.c_str() + p + 1);
             S[(size_t)a]->budget = b; m.s[(size_t)a].budget = b;
@@ -195,20 +214,23 @@ static bool run_case(const std::string& line) {
         if (!r) break; n_keep++;
     }
     g.wait_for_all();
-    g_nontrivial = n_rej > 0 && (n_pull > 0 || n_keep > 0 || n_resv > 0 || m.kind == "lim" || m.kind == "bc" || m.kind == "fn" || m.kind == "as" || m.kind == "ow" || m.kind == "wo");
+    g_nontrivial = (m.kind == "jk") ? (n_resets > 0 || !m.s[0].log.empty()) : n_rej > 0 && (n_pull > 0 || n_keep > 0 || n_resv > 0 || m.kind == "lim" || m.kind == "bc" || m.kind == "fn" || m.kind == "as" || m.kind == "ow" || m.kind == "wo");
     return true;
 }
 
 // ------------------------------------------------------------------ generator
 static int pick(int lo, int hi) { return *rc::gen::resize(100, rc::gen::inRange(lo, hi + 1)); }
 static std::string gen_case() {
-    static const char* K[] = { "bc", "fn", "ow", "wo", "q", "q", "pq", "seq", "seq", "lim", "lim", "lim", "as" };
-    std::string kind = K[pick(0, 12)]; int copy = pick(0, 3) == 0; int T = pick(1, 4); int ns = pick(1, 3);
+    static const char* K[] = { "bc", "fn", "ow", "wo", "q", "q", "pq", "seq", "seq", "lim", "lim", "lim", "as", "jk" };
+    std::string kind = K[pick(0, 13)]; int copy = pick(0, 3) == 0; int T = pick(1, 4); int ns = pick(1, 3);
     static const int BUD[] = { -1, -1, 0, 1, 2, 3 };
     std::string sinks; for (int k = 0; k < ns; k++) sinks += (k ? "," : "") + std::to_string(pick(0, 1)) + ":" + std::to_string(BUD[pick(0, 5)]) + ":" + std::to_string(pick(0, 3) ? 1 : 0);
+    if (kind == "jk") { sinks = "0:-1:1"; ns = 1; copy = 0; }
     int nops = pick(1, 24); std::string ops; int next_seq = 0;
     for (int i = 0; i < nops; i++) {
         std::string o; int c = pick(0, 19);
+        if (kind == "jk") { int w = pick(0, 9); o = w < 4 ? "P" + std::to_string(pick(0, 63)) : w < 8 ? "Q" + std::to_string(pick(0, 63)) : "Z"; ops += (i ? "," : "") + o; continue; }
+        if (c == 19 && pick(0, 2) == 0) { ops += (i ? std::string(",") : std::string()) + "Z"; continue; }
         if (c < 9) { int v = pick(0, 15); if (kind == "seq") { v = pick(0, 3) ? next_seq++ : pick(0, 12); } o = "P" + std::to_string(v); }
         else if (c < 13) o = "B" + std::to_string(pick(0, ns - 1)) + ":" + std::to_string(BUD[pick(0, 5)]);
         else if (c < 16) o = "U" + std::to_string(pick(0, ns - 1));
